@@ -16,15 +16,19 @@ def BlockRT (fuel : Nat) (sty : STy) : Prop :=
 
 /-! ### one attribute field -/
 
-theorem fromCty_ptr (t : GTy) (x : GVal) (c : Val) (hp : noPtr t = true) (hc : toCty t x = some c) :
+theorem fromCty_ptr (t : GTy) (x : GVal) (c : Val) (hp : noPtr t = true) (ht : hasTy t x = true)
+    (hc : toCty t x = some c) :
     fromCty (.ptr t) c = some (.ptr (some x)) := by
-  have h := fromCty_toCty t x c hp hc
+  have h := fromCty_toCty t x c hp ht hc
   cases t with
   | str => cases x <;> simp [toCty] at hc; subst hc; simp [fromCty]
-  | int => cases x <;> simp [toCty] at hc; subst hc; simp [fromCty]
+  | int =>
+    cases x <;> simp [toCty] at hc; subst hc
+    simp only [hasTy, decide_eq_true_eq] at ht
+    simp [fromCty, ht]
   | bool => cases x <;> simp [toCty] at hc; subst hc; simp [fromCty]
-  | slice t' => rw [fromCty, h]; rfl
-  | map t' => rw [fromCty, h]; rfl
+  | slice t' => rw [fromCty, h] <;> first | rfl | (intro _ _ _ h'; cases h')
+  | map t' => rw [fromCty, h] <;> first | rfl | (intro _ _ _ h'; cases h')
   | ptr t' => simp [noPtr] at hp
 
 theorem noPtr_of_noInnerPtr {t : GTy} (h : noInnerPtr t = true) (hn : isPtr t = false) : noPtr t = true := by
@@ -45,14 +49,14 @@ theorem attrRT (name : String) (t : GTy) (v : GVal) (hw : noInnerPtr t = true) (
           simp only [hasTy] at ht
           simp only [noInnerPtr] at hw
           obtain ⟨c, hc⟩ := Option.isSome_iff_exists.1 (toCty_isSome t' x ht)
-          refine ⟨[(name, c)], by simp [encAttr, hc], Or.inr ⟨c, rfl, ?_⟩⟩
-          simp only [decodeExpr, ctyTy, convert_reparse t' x c hc, fromCty_ptr t' x c hw hc]
+          refine ⟨[(name, c)], by cases t' <;> simp_all [encAttr, noPtr], Or.inr ⟨c, rfl, ?_⟩⟩
+          simp only [decodeExpr, ctyTy, convert_reparse t' x c hc, fromCty_ptr t' x c hw ht hc]
       | _ => simp [hasTy] at ht
     | _ => simp [isPtr] at hp
   · have hp' : isPtr t = false := by simpa using hp
     have hnp := noPtr_of_noInnerPtr hw hp'
     obtain ⟨c, hc⟩ := Option.isSome_iff_exists.1 (toCty_isSome t v ht)
-    refine ⟨[(name, c)], ?_, Or.inr ⟨c, rfl, attr_roundtrip t v c hnp hc⟩⟩
+    refine ⟨[(name, c)], ?_, Or.inr ⟨c, rfl, attr_roundtrip t v c ht hnp hc⟩⟩
     cases t <;> simp_all [encAttr, isPtr]
 
 /-! ### one block field -/
